@@ -283,7 +283,8 @@ class LoopMixin:
                 if m_ != f.module.name:
                     continue
                 params = [a.arg for a in sp.fn.node.args.args if a.arg not in reserved]
-                if all(env.has(p_) or self.alias_for(p_, env) is not None for p_ in params):
+                own_ = self.assigned_names(f.node)
+                if all(env.has(p_) or (p_ not in own_ and self.alias_for(p_, env) is not None) for p_ in params):
                     cands.append(sp)
             bodies = {ast.dump(ast.Module(body=c.fn.node.body, type_ignores=[])) + c.kind for c in cands}
             if cands and len(bodies) == 1:
@@ -318,8 +319,9 @@ class LoopMixin:
         names = [a.arg for a in spec.fn.node.args.args if a.arg not in reserved] + list(spec.modifies)
         for fn in (spec.opts.get('step') or {}).values():
             names += [a.arg for a in fn.node.args.args if a.arg not in reserved]
+        own = self.assigned_names(self.fn_stack[-1].node) if self.fn_stack else set()
         for nm in names:
-            if not env.has(nm):
+            if not env.has(nm) and nm not in own:      # (a name this function assigns later is simply not bound yet)
                 al = self.alias_for(nm, env)
                 if al is not None:
                     env.vars[nm] = env.vars[al]
